@@ -651,19 +651,27 @@ package values
 //@ assigns nothing
 //@ ensures def: result == (e == k && (e == nil || tcomparable(typeof(e))))
 
+//@ define iskey(e Val, k Val) Bool = e == k && (e == nil || tcomparable(typeof(e)))
 //@ func (values.mapSliceValue).Contains
 //@ props C01 C18
 //@ panics nothing
 //@ requires arg: elem != nil
 //@ assigns nothing
+//@ loop 1 invariant noneSoFar: forall(j, 0, _i, !iskey(elem.Interface(), v.slice[j].Key))
+//@ ensures found: result == exists(j, 0, len(v.slice), iskey(elem.Interface(), v.slice[j].Key))
 
+// m[k] on an ordered map is a plain key lookup - the first entry with that key, nil when
+// there is none (no `size` fallback: that is the property form m.size, as for a Go map)
 //@ func (values.mapSliceValue).IndexValue
 //@ props C01 C18
 //@ panics nothing
 //@ requires arg: index != nil
 //@ assigns alloc F$values.dropWrapper$d, alloc F$values.dropWrapper$v, alloc F$values.dropWrapper$Once
+//@ loop 1 invariant noneSoFar: forall(j, 0, _i, !iskey(index.Interface(), v.slice[j].Key))
 //@ ensures nonnil: result != nil
 //@ ensures drops: invkept(values.dropWrapper)
+//@ ensures missing: forall(j, 0, len(v.slice), !iskey(index.Interface(), v.slice[j].Key)) ==> result.Interface() == nil && result == box(nilValue, values.wrapperValue)
+//@ ensures foundFirst: forall(j, 0, len(v.slice), iskey(index.Interface(), v.slice[j].Key) && forall(i, 0, j, !iskey(index.Interface(), v.slice[i].Key)) && plainv(v.slice[j].Value) ==> result.Interface() == v.slice[j].Value)
 
 //@ func (values.mapSliceValue).PropertyValue
 //@ props C01 C18
@@ -671,6 +679,9 @@ package values
 //@ requires arg: index != nil
 //@ assigns alloc F$values.dropWrapper$d, alloc F$values.dropWrapper$v, alloc F$values.dropWrapper$Once
 //@ ensures nonnil: result != nil
+//@ ensures drops: invkept(values.dropWrapper)
+//@ ensures size: index.Interface() == box("size", string) && forall(j, 0, len(v.slice), !iskey(index.Interface(), v.slice[j].Key)) ==> result.Interface() == box(len(v.slice), int)
+//@ ensures missing: index.Interface() != box("size", string) && forall(j, 0, len(v.slice), !iskey(index.Interface(), v.slice[j].Key)) ==> result.Interface() == nil
 
 // ---- structs (C01, C18): fields and getter methods by name ----------------------------------
 // ValueOf wraps a struct, or a non-nil pointer to a struct, in structValue.
